@@ -47,7 +47,7 @@ UNIT = {
     'calls': {
         'm:@vec_keyid::clear': 'vec_keyid_clear', 'm:@vec_u8::clear': 'vec_u8_clear', 'm:@vec_keyid::size': 'vec_keyid_size', 'm:@vec_keyid::empty': 'vec_keyid_empty',
         'm:@vec_keyid::push_back': ('vec_keyid_push_back', 'v'), 'm:@vec_u8::push_back': ('vec_u8_push_back', 'v'),
-        'o:[]:@vec_keyid': '$o->ptr[$0]', 'o:[]:@vec_u8': '$o->ptr[$0]', 'm:@vec_keyid::erase': _erase, 'm:@vec_u8::erase': _erase, 'm:@vec_keyid::insert': 'vec_keyid_insert', 'm:@vec_u8::insert': 'vec_u8_insert',
+        'o:[]:@vec_keyid': '$o->ptr[$0]', 'o:[]:@vec_u8': '$o->ptr[$0]', 'm:@vec_keyid::erase': _erase, 'm:@vec_u8::erase': _erase, 'm:@vec_keyid::resize': 'vec_keyid_resize', 'm:@vec_u8::resize': 'vec_u8_resize', 'o:=:@struct KeyID': '(*$o = $0)', 'o:=:KeyID': '(*$o = $0)', 'm:@vec_keyid::insert': 'vec_keyid_insert', 'm:@vec_u8::insert': 'vec_u8_insert',
         'm:@vec_keyid::begin': '($o->ptr)', 'm:@vec_keyid::end': '($o->ptr + $o->len)', 'm:@vec_u8::begin': '($o->ptr)', 'm:@vec_u8::end': '($o->ptr + $o->len)',
     },
     'call_patterns': [(r'c:__normal_iterator<.*', '$0')],
